@@ -21,17 +21,50 @@ def observer_cases(props, tier):
     return cs
 
 
+SESSIONS = {'quick': ['S2', 'S4'], 'thorough': ['S2', 'S3', 'S4', 'S5', 'S6']}
+
+
+def _replica_case(name):
+    """(b)/(c): the bundled network clients of a recorded session against the table manager's log"""
+    from engine import common
+    from harness import transcripts
+    common.setup_path()
+    res = common.CaseResult(name)
+    bad, r = transcripts.check_replicas(name, common.SEED)
+    res.stats = dict(paths=1, queries=0, steps=len(r.get('replicas', [])))
+    res.outcomes = {'network replicas compared': 1}
+    res.samples = [{'session': name, 'replicas': len(r.get('replicas', [])), 'discrepancies': len(bad)}]
+    res.detail = '; '.join(bad[:2])
+    if bad == ['session did not complete']:
+        res.status = 'inconclusive'
+        res.detail = 'session did not complete (see C09)'
+    elif bad:
+        res.cex.append({'kind': 'replicas', 'session': name, 'seed': common.SEED, 'props': ['C11'], 'discrepancies': bad[:5]})
+        res.status = 'cex'
+    return res
+
+
 def cases(tier):
-    return observer_cases(PROPS, tier)
+    cs = observer_cases(PROPS, tier)
+    for n in SESSIONS['thorough' if tier == 'thorough' else 'quick']:
+        cs.append((_replica_case, f'network clients of session {n}: local auction and observer of every board against the log', dict(name=n)))
+    return cs
 
 
 META = dict(
     level='model_checking',
-    bounds={'(a)': 'any trick 1..13, 0..3 cards on the table, any contract, any disjoint hands, any observer seat, any card and seat offered'},
+    bounds={'(b),(c)': 'the four bundled clients of the recorded sessions S2, S4 (quick) / S2-S6: every board\'s local auction and single-seat observer compared with the table manager\'s log; completion of every client; all schedules of those sessions by C09',
+            '(a)': 'any trick 1..13, 0..3 cards on the table, any contract, any disjoint hands, any observer seat, any card and seat offered'},
     stubs=['logger calls skipped'],
     assumptions=play.COMMON_ASSUMPTIONS + ['the relation between replicas is the one printed in harness/play.py:case_observer; dummy is disclosed to an '
                                            'observer that is not dummy right after the opening lead (what the bundled client does)'],
     rule='feasible paths of the pair (full game, observer) on one symbolic play',
     explanation='product inductive step over bit-set hands',
-    required_outcomes=['both accepted', 'observer refused'],
+    required_outcomes=['both accepted', 'observer refused', 'network replicas compared'],
 )
+
+
+def validate(tier):
+    """translator validation: the interpreter in concrete mode against CPython on the functions this check encodes"""
+    from engine import validate as v
+    return v.run(['plays'], tier)
